@@ -632,6 +632,13 @@ func memOracle(c Case, impl []string, wire bool) []Failure {
 		fail := func(class, oracle, exp string) {
 			fs = append(fs, Failure{Class: class, Oracle: oracle, Index: i, Expected: exp, Observed: got})
 		}
+		if strings.HasPrefix(c.Tag, "directed:retype-before-tag:") {
+			n0, _ := strconv.Atoi(strings.TrimPrefix(c.Tag, "directed:retype-before-tag:"))
+			if i >= n0 && i < n0+3 && !strings.HasPrefix(got, "err") {
+				fail("mem-deletes-reachable-blob:retyped-before-tag", "reachable_retained", "err DENIED (tag v1 -> index -> image -> this blob)")
+			}
+			continue
+		}
 		if c.Tag == "directed:dangling-tag-reads" && (i == 7 || i == 10) && got != impl[4] {
 			fail("mem-read-changed-the-registry", "reads_change_nothing", impl[4])
 		}
